@@ -122,6 +122,7 @@ func Run(run *vh.Run) {
 		}
 		before := len(res.Inconclusive)
 		h.enumerate(res, r, 12)
+		h.rpcFaults(res)
 		if len(res.Inconclusive) > before {
 			allEnumerated = false
 		}
